@@ -985,6 +985,97 @@ pub async fn idle_case(active: bool) -> Result<&'static str, Violation> {
     }
 }
 
+
+// ------------------------------------------------------------------------------------------------
+// C07 over HTTP/3: two flows through a _udp2 stream
+// ------------------------------------------------------------------------------------------------
+
+pub async fn udp_case() -> Result<&'static str, Violation> {
+    let case = json!({"kind":"quic-udp"});
+    let mk = |sig: &str, what: String| Violation::new(format!("C07:h3:{sig}"), what, case.clone());
+    let ep = start(Cfg { clients: users(), allow_private: true, ..Cfg::default() }).await.map_err(|e| Violation::new("C07:machinery", e, json!({})))?;
+    let peers: Vec<std::net::UdpSocket> = (0..2)
+        .map(|_| {
+            let s = std::net::UdpSocket::bind("127.0.0.1:0").unwrap();
+            s.set_nonblocking(true).unwrap();
+            s
+        })
+        .collect();
+    let mut cl = QuicClient::new(ep.addr, &ClientOpts::default()).map_err(|e| Violation::new("C07:machinery", e, json!({})))?;
+    if !cl.handshake(Duration::from_secs(3)).await {
+        return Err(Violation::new("C07:machinery", "QUIC handshake failed", case));
+    }
+    let id = cl.request("CONNECT", "_udp2", None, &[("proxy-authorization".into(), AUTH.into())], false).map_err(|e| Violation::new("C07:machinery", e, json!({})))?;
+    let head = cl.response(id, Duration::from_secs(3), 4096, Some(0)).await;
+    if head.status != Some(200) {
+        return Err(mk("mux-refused", format!("CONNECT _udp2 over HTTP/3 answered {:?}", head.status)));
+    }
+    let srcs: [SocketAddr; 2] = ["10.0.0.1:1000".parse().unwrap(), "10.0.0.2:2000".parse().unwrap()];
+    let mut stream = vec![];
+    for i in 0..2 {
+        stream.extend_from_slice(&super::c06::build_record(srcs[i], peers[i].local_addr().unwrap(), b"app", format!("query-{i}").as_bytes()));
+    }
+    let mut off = 0;
+    let t0 = std::time::Instant::now();
+    while off < stream.len() && t0.elapsed() < Duration::from_secs(3) {
+        match cl.send_body(id, &stream[off..], false) {
+            Ok(n) => off += n,
+            Err(_) => tokio::time::sleep(Duration::from_millis(1)).await,
+        }
+    }
+    // each peer gets exactly its datagram and answers from the socket it was reached on
+    let mut froms = vec![];
+    for i in 0..2 {
+        let t0 = std::time::Instant::now();
+        let mut got = None;
+        while got.is_none() && t0.elapsed() < Duration::from_secs(3) {
+            cl.pump();
+            let mut buf = [0u8; 2048];
+            if let Ok((n, from)) = peers[i].recv_from(&mut buf) {
+                got = Some((buf[..n].to_vec(), from));
+            }
+            tokio::time::sleep(Duration::from_millis(2)).await;
+        }
+        let Some((payload, from)) = got else {
+            return Err(mk("datagram-not-delivered", format!("peer {i} received nothing")));
+        };
+        if payload != format!("query-{i}").as_bytes() {
+            return Err(mk("misrouted-datagram", format!("peer {i} received {:?}", String::from_utf8_lossy(&payload))));
+        }
+        froms.push(from);
+    }
+    if froms[0] == froms[1] {
+        return Err(mk("flows-share-a-socket", format!("both flows reached their peers from {}", froms[0])));
+    }
+    for i in [1usize, 0] {
+        let _ = peers[i].send_to(format!("answer-{i}").as_bytes(), froms[i]);
+    }
+    let want_len: usize = 2 * (4 + 36 + 8);
+    let r = cl.response(id, Duration::from_secs(3), 4096, Some(want_len)).await;
+    cl.close();
+    let mut got = vec![];
+    let mut pos = 0usize;
+    while r.body.len() - pos >= 40 {
+        let len = u32::from_be_bytes(r.body[pos..pos + 4].try_into().unwrap()) as usize;
+        if r.body.len() - pos - 4 < len || len < 36 {
+            break;
+        }
+        let rec = &r.body[pos + 4..pos + 4 + len];
+        let ip = |b: &[u8]| std::net::Ipv4Addr::new(b[12], b[13], b[14], b[15]);
+        let src = SocketAddr::new(ip(&rec[0..16]).into(), u16::from_be_bytes([rec[16], rec[17]]));
+        let dst = SocketAddr::new(ip(&rec[18..34]).into(), u16::from_be_bytes([rec[34], rec[35]]));
+        got.push((src, dst, rec[36..].to_vec()));
+        pos += 4 + len;
+    }
+    let mut want: Vec<(SocketAddr, SocketAddr, Vec<u8>)> = (0..2).map(|i| (peers[i].local_addr().unwrap(), srcs[i], format!("answer-{i}").into_bytes())).collect();
+    want.sort();
+    got.sort();
+    if got != want {
+        return Err(mk("reply-mislabelled-or-missing", format!("the client received {got:?}, expected {want:?}")));
+    }
+    Ok("two-flows-relayed")
+}
+
 // ------------------------------------------------------------------------------------------------
 // drivers
 // ------------------------------------------------------------------------------------------------
@@ -1166,6 +1257,14 @@ pub fn c14_into(rep: &mut Report) {
     rep.violations(r.violations);
 }
 
+pub fn c07_into(rep: &mut Report) {
+    match super::guarded(|| run_blocking(udp_case())) {
+        Ok(Ok(c)) => rep.sub.push(json!({"sub":"http3-udp-multiplexer","class":c,"what":"two UDP flows through an HTTP/3 _udp2 stream with real peers: each datagram reaches exactly its destination from its own socket, each reply returns labelled (flow destination -> flow source)"})),
+        Ok(Err(v)) => rep.violation(v),
+        Err(p) => rep.violation(Violation::new("C07:h3:panic", p, json!({"kind":"quic-udp"}))),
+    }
+}
+
 pub fn c09_into(rep: &mut Report, tier: Tier) {
     let mut n = 0u64;
     for (family, d) in garbage_families(tier) {
@@ -1222,6 +1321,7 @@ pub fn replay(case: &serde_json::Value) -> Option<Result<(), Violation>> {
             run_blocking(outcome_case(o)).map(|_| ())
         }
         "quic-metrics" => run_blocking(metrics_case()).map(|_| ()),
+        "quic-udp" => run_blocking(udp_case()).map(|_| ()),
         "quic-idle" => run_blocking(idle_case(case["active"].as_bool().unwrap_or(false))).map(|_| ()),
         "quic-service" => {
             let w = ["ping-host", "ping-marker", "download", "speedtest-host-download", "upload", "speedtest-host-upload"].into_iter().find(|x| Some(*x) == case["which"].as_str()).unwrap_or("ping-host");
